@@ -91,18 +91,18 @@ impl Property for NatProp {
 
     fn cases(&self, tier: Tier) -> u64 {
         match (self.which, tier) {
-            (Which::C01, Tier::Quick) => 120_000,
-            (Which::C01, Tier::Thorough) => 4_000_000,
-            (Which::C02, Tier::Quick) => 120_000,
-            (Which::C02, Tier::Thorough) => 5_000_000,
-            (Which::C03, Tier::Quick) => 60_000,
-            (Which::C03, Tier::Thorough) => 2_000_000,
-            (Which::C04, Tier::Quick) => 50_000,
-            (Which::C04, Tier::Thorough) => 1_500_000,
-            (Which::C05, Tier::Quick) => 100_000,
-            (Which::C05, Tier::Thorough) => 4_000_000,
-            (Which::C06, Tier::Quick) => 100_000,
-            (Which::C06, Tier::Thorough) => 4_000_000,
+            (Which::C01, Tier::Quick) => 1_200_000,
+            (Which::C01, Tier::Thorough) => 40_000_000,
+            (Which::C02, Tier::Quick) => 1_200_000,
+            (Which::C02, Tier::Thorough) => 40_000_000,
+            (Which::C03, Tier::Quick) => 500_000,
+            (Which::C03, Tier::Thorough) => 15_000_000,
+            (Which::C04, Tier::Quick) => 400_000,
+            (Which::C04, Tier::Thorough) => 12_000_000,
+            (Which::C05, Tier::Quick) => 1_000_000,
+            (Which::C05, Tier::Thorough) => 40_000_000,
+            (Which::C06, Tier::Quick) => 1_000_000,
+            (Which::C06, Tier::Thorough) => 40_000_000,
         }
     }
 
@@ -139,7 +139,7 @@ impl Property for NatProp {
                 o.mem16 = 16;
                 o.aim_w = [40, 6, 2, 2, 6, 6, 4, 1, 1];
                 o.allow_fs = true;
-                o.mutate16 = 0;
+                o.mutate16 = 1;
                 o
             }
             Which::C06 => GenOpts::faulty(eng.form_indices(|f| f.class != Class::Os && in_floor(f) && !insn::vendor_divergent(f.code))),
@@ -147,6 +147,72 @@ impl Property for NatProp {
         assert!(!opts.forms.is_empty(), "no forms selected for {:?} (floor list missing?)", self.which);
         self.opts = Some(opts);
         self.eng = Some(eng);
+    }
+
+    fn fixed_cases(&mut self, tier: Tier) -> Vec<NCase> {
+        let mut v = vec![];
+        let mk = |ins: Instruction, gpr: [u64; 16], rflags: u64, note: &str| -> Option<NCase> {
+            let rip = CODE_BASE + 0x200;
+            let mut e = Encoder::new(64);
+            e.encode(&ins, rip).ok()?;
+            Some(NCase { code: crate::util::hex(&e.take_buffer()), rip, gpr, rflags, xmm: [[0; 2]; 16], fs: 0, gs: 0, mem_seed: 7, patches: vec![], note: note.into(), layout: 0 })
+        };
+        match self.which {
+            Which::C02 => {
+                // every shift form × all 256 counts × operand patterns × two incoming flag states (exhaustive in the count)
+                let vals: [u64; 4] = [0x8000_0000_8000_8081, 0x7fff_ffff_7fff_7f7e, u64::MAX, 1];
+                let forms = [
+                    (Code::Shl_rm8_imm8, Register::BL, true), (Code::Shl_rm16_imm8, Register::BX, true), (Code::Shl_rm32_imm8, Register::EBX, true), (Code::Shl_rm64_imm8, Register::RBX, true),
+                    (Code::Shr_rm8_imm8, Register::BL, true), (Code::Shr_rm16_imm8, Register::BX, true), (Code::Shr_rm32_imm8, Register::EBX, true), (Code::Shr_rm64_imm8, Register::RBX, true),
+                    (Code::Shl_rm8_CL, Register::BL, false), (Code::Shl_rm16_CL, Register::BX, false), (Code::Shl_rm32_CL, Register::EBX, false), (Code::Shl_rm64_CL, Register::RBX, false),
+                    (Code::Shr_rm8_CL, Register::BL, false), (Code::Shr_rm16_CL, Register::BX, false), (Code::Shr_rm32_CL, Register::EBX, false), (Code::Shr_rm64_CL, Register::RBX, false),
+                ];
+                let nvals = if tier == Tier::Thorough { 4 } else { 2 };
+                for (code, reg, imm) in forms {
+                    for count in 0..256u32 {
+                        for val in vals.iter().take(nvals) {
+                            for fl in [0u64, 0x8d5] {
+                                let ins = if imm { Instruction::with2(code, reg, count as i32) } else { Instruction::with2(code, reg, Register::CL) };
+                                let mut gpr = [0x1111_1111_1111_1111u64; 16];
+                                gpr[3] = *val;
+                                gpr[1] = 0xabcd_ef00 | count as u64;
+                                if let Some(c) = ins.ok().and_then(|i| mk(i, gpr, fl, "shift-count-sweep")) {
+                                    v.push(c);
+                                }
+                            }
+                        }
+                    }
+                }
+            }
+            Which::C03 => {
+                // every Jcc rel8/rel32 form × all 64 CF/PF/AF/ZF/SF/OF states (exhaustive in the condition)
+                for (k, code) in crate::prog::JCC8.iter().chain(crate::prog::JCC32.iter()).enumerate() {
+                    for bits in 0..64u64 {
+                        let mut fl = 0u64;
+                        for (i, b) in [0u64, 2, 4, 6, 7, 11].iter().enumerate() {
+                            if bits >> i & 1 == 1 {
+                                fl |= 1 << b;
+                            }
+                        }
+                        let target = if k % 2 == 0 { CODE_BASE + 0x200 + 0x40 } else { CODE_BASE + 0x200 - 0x30 };
+                        if let Some(c) = Instruction::with_branch(*code, target).ok().and_then(|i| mk(i, [0x2222; 16], fl, "jcc-flag-sweep")) {
+                            v.push(c);
+                        }
+                    }
+                }
+                for rcx in [0u64, 1, 1 << 32, u64::MAX, 0xffff_ffff] {
+                    for code in [Code::Jrcxz_rel8_64, Code::Jecxz_rel8_64] {
+                        let mut gpr = [0x3333u64; 16];
+                        gpr[1] = rcx;
+                        if let Some(c) = Instruction::with_branch(code, CODE_BASE + 0x200 + 0x20).ok().and_then(|i| mk(i, gpr, 0, "jrcxz-sweep")) {
+                            v.push(c);
+                        }
+                    }
+                }
+            }
+            _ => {}
+        }
+        v
     }
 
     fn decode(&mut self, tape: &TapeVal) -> NCase {
@@ -587,14 +653,19 @@ impl NatProp {
     fn exec_c05_fs(&mut self, c: &NCase) -> CaseOut {
         let fp = case_fp(c);
         let mut bytes = c.code_bytes();
-        let pos = bytes.iter().position(|b| *b == 0x64);
         let (ins, _) = self.eng().decode(c);
         let code = format!("{:?}", ins.code());
-        let p = match pos {
-            Some(p) if p < 4 && bytes[..p].iter().all(|b| insn::is_legacy_prefix(*b)) => p,
-            _ => return CaseOut::discard("fs-prefix-not-found"),
-        };
-        bytes[p] = 0x65;
+        // swap every FS prefix in the run of legacy prefixes; any other segment prefix in the run makes
+        // "which one wins" part of the question, so such encodings are left out
+        let nprefix = bytes.iter().take_while(|b| insn::is_legacy_prefix(**b)).count();
+        if bytes[..nprefix].iter().any(|b| matches!(*b, 0x65 | 0x2e | 0x36 | 0x3e | 0x26)) || !bytes[..nprefix].contains(&0x64) {
+            return CaseOut::discard("fs-prefix-not-alone");
+        }
+        for b in bytes[..nprefix].iter_mut() {
+            if *b == 0x64 {
+                *b = 0x65;
+            }
+        }
         let twin = NCase { code: crate::util::hex(&bytes), fs: c.gs, gs: c.fs, ..c.clone() };
         let a = self.eng().run(c, false);
         // an operand that reads the instruction's own bytes sees the swapped prefix: not comparable
